@@ -954,7 +954,7 @@ def explore(prop, tier, seed, rng, wd):
         stats["gate"]["common_ok" if co else "common_rejected"] += 1
         stats["gate"]["own_ok" if oo else "own_rejected"] += 1
     # inputs (shared by all configurations)
-    npts = 40 if tier == "quick" else 150
+    npts = 30 if tier == "quick" else 150
     wins, pts, dwins = {}, {}, {}
     for i in insts:
         k1, k2 = int(mu[i["id"]]["k1"]), int(mu[i["id"]]["k2"])
